@@ -108,7 +108,7 @@ class Ctx:
         for v in r.viols():
             n += 1
             m = v.get('msg', '')
-            site = m.split(' ')[0] if v.get('cls') == 'contract' else re.sub(r'thread \d+|t\d+', 't', m)[:60]
+            site = m.split(' ')[0] if v.get('cls') in ('contract', 'container-lockset') else re.sub(r'thread \d+|t\d+', 't', m)[:60]
             if v.get('cls') in ('self-deadlock', 'unbalanced', 'thread-exit-holding', 'init-held-lock', 'unlock-not-held'):
                 lk = re.findall(r'(bidib_\w+|trackstate_\w+)', m)
                 site = '+'.join(lk[:3]) if lk else site
